@@ -141,6 +141,9 @@ func (w *World) GenToken(x []byte) *esdt.ESDigitalToken {
 		m.Royalties = verif.U32("tok.royalties")
 		verif.Assume(m.Royalties <= vmcommon.MaxRoyalty)
 		m.Hash = verif.Bytes("tok.hash", fl)
+		if w.Cfg.VaryHash {
+			m.Hash = verif.BytesLen("tok.hash.v", 0, 1)
+		}
 		m.Attributes = verif.Bytes("tok.attr", fl)
 		nu := 0
 		if w.Cfg.MaxURIs > 0 && !w.Cfg.Thin {
